@@ -242,3 +242,78 @@ def check_C09(ctx):
             "non-monotone) through Labels::new + create_with_alignment, group-wise membership in the specification's result sets; "
             "I->S: corpus utterances with random string annotations through Labels::load_from_strings, the estimator and Engine::synthesize",
             {})
+
+
+# --------------------------------------------------------------------------- C19 / C10
+
+def perturbed_voices(ctx, n=3, kind="all"):
+    import htsvoice
+    out = [BUNDLED]
+    for s in range(1, n + 1):
+        p = ctx.path("perturbed_%s_%d.htsvoice" % (kind, s))
+        htsvoice.perturb(BUNDLED, p, kind, s)
+        out.append(p)
+    return out
+
+
+def _vs_cfg(ctx, mode, fams, nvoices, L=2):
+    p = ctx.path("Gen_VoiceSet_%s_%s_%d.cfg" % (mode, fams, nvoices))
+    open(p, "w").write('CONSTANTS Mode = "%s"  L = %d  Fams <- %s  Salts = {0}  NVoices = %d\n'
+                       'SPECIFICATION Spec\nINVARIANTS Emit WeightsValid\nCHECK_DEADLOCK FALSE\n' % (mode, L, fams, nvoices))
+    return p
+
+
+def check_C19(ctx):
+    q = ctx.quick()
+    mc(ctx, "VoiceSet", S("mc", "MC_VoiceSet.cfg"), S("mc", "MC_VoiceSet.tla"), workers=8)
+    tla = S("gen", "Gen_VoiceSet_defs.tla")
+    lab = label_table_json(ctx)
+    cases = gen(ctx, "compat", _vs_cfg(ctx, "compat", "FamsA" if q else "FamsB", 2), tla, workers=8)
+    nerr = sum(1 for c in cases if not c["ok"])
+    replay_stage(ctx, "compat", "vset-replay", cases, extra_args=[lab], distinct_key=lambda c: json.dumps(c["kinds"]) + c["voices"][0]["header"][4] if c["voices"] else "empty")
+    if nerr == 0 or nerr == len(cases):
+        raise ToolError("vacuous compatibility cases")
+    for nv in ([2] if q else [2, 3]):
+        cases = gen(ctx, "weights%d" % nv, _vs_cfg(ctx, "weights", "FamsW", nv, 2), tla, workers=8)
+        replay_stage(ctx, "weights-nv%d" % nv, "vset-replay", cases, extra_args=[lab],
+                     distinct_key=lambda c: json.dumps([(h["q"], h["s"], h["w"], h["tag"]) for h in c.get("hist", [])]))
+    if not q:
+        cases = gen(ctx, "weights-sim", _vs_cfg(ctx, "weights", "FamsW", 2, 6), tla, simulate=(1500, 8))
+        replay_stage(ctx, "weights-sequences", "vset-replay", cases, extra_args=[lab])
+    ctx.assumptions += ["weight vectors from a 15-entry candidate table (valid, wrong length, sum off by 1/8..1, +2e-6, NaN)",
+                        "single-field variants are built by the specification from the voice family (nine fields of the property)"]
+    return ("model_checking",
+            "S->I: every list of 0..3 voices built from a base voice, a compatible sibling and nine single-field variants -> "
+            "VoiceSet::new / Engine::load accept iff the specification's Compatible holds; every history of two weight updates "
+            "(3 quantities x 3 streams x 15 candidates) with getters compared after each step and synthesis compared with a "
+            "fresh engine given the effective weights",
+            {"compat_cases_expected_err": nerr})
+
+
+def check_C10(ctx):
+    q = ctx.quick()
+    mc(ctx, "VoiceSet", S("mc", "MC_VoiceSet.cfg"), S("mc", "MC_VoiceSet.tla"), workers=8)
+    tla = S("gen", "Gen_VoiceSet_defs.tla")
+    lab = label_table_json(ctx)
+    for nv in ([2, 3] if q else [1, 2, 3]):
+        cases = gen(ctx, "interp%d" % nv, _vs_cfg(ctx, "interp", "FamsA" if q else "FamsB", nv), tla, workers=8, timeout=3000)
+        replay_stage(ctx, "interp-nv%d" % nv, "vset-replay", cases, extra_args=[lab],
+                     distinct_key=lambda c: json.dumps(c["eff"]) + json.dumps(c["voices"][0]["header"][4:7]))
+    voices = perturbed_voices(ctx, 3, "all")
+    tp = record_stage(ctx, "bundled-mix", "vset-record", [ctx.seed, 60 if q else 1500], timeout=3000) if False else None
+    tpath = ctx.path("bundled-mix.ndjson")
+    p = run_jbv(["vset-record", ctx.seed, 60 if q else 1500, tpath] + voices, timeout=3000)
+    if p.returncode != 0:
+        log(p.stderr[-2000:])
+        raise ToolError("vset-record failed")
+    trace_stage(ctx, "interp", S("trace", "Trace_Interp.cfg"), S("trace", "Trace_Interp.tla"), tpath, reset_ev="__none__",
+                keyfn=lambda e, run: "mix:%s:%s" % (e.get("ev"), e.get("q", "")))
+    ctx.assumptions += ["S->I weights in eighths and PDF words dyadic: interpolation is exact in f64 and compared exactly",
+                        "I->S: weights in 64ths, words quantised to 2^-12 (GV: 2^-18); tolerance = accumulated quantisation error",
+                        "perturbed copies of the bundled voice written by bin/htsvoice.py (layout unchanged)"]
+    return ("model_checking",
+            "S->I: voice sets of 1..3 rendered voices with different trees and PDFs, independent weight vectors per quantity "
+            "(vertices, negative and over-unity components): duration(), model_stream(s) stream/msd/gv/switch equal the exact "
+            "weighted average of the specification's per-voice selections; I->S: bundled voice + 3 perturbed copies, random "
+            "weights: weighted-average law on quantised words, vertex weights => bit-equal waveform, identical voices => <= 64 ulps",
+            {})
